@@ -47,7 +47,6 @@ META = {
     'assumptions': ['generalConfig.lazy_number_validation is False (default)',
                     'values are canonical (what validation returns): no -0.0 leaf for the text clauses',
                     'fmtstr follows the SECoP syntax %.<n>(e|f|g) or is frappy\'s default %g',
-                    'enum member names have no leading/trailing white space (EnumType.from_string strips the text)',
                     'node-side from_string (which converts with __call__) is offered structs with all members; the client side '
                     '(client = True) takes structs without their optional members'],
 }
@@ -486,6 +485,31 @@ def gen_fmt(rng):
     return '%%.%d%s' % (rng.choice([0, 1, 2, 3, 4, 5, 6, 7, 8, 9, 10, 11, 12, 15, 16, 17]), rng.choice('efg'))
 
 
+def blank_names(rng, tree):
+    """the same tree with, now and then, an enum member name that starts or ends with white space (the text form of an enum
+    value is the bare name: `from_string` must not lose the blanks), sometimes next to the member with the stripped name"""
+    t = tree['t']
+    if t == 'enum':
+        members = [list(m) for m in tree['members']]
+        if rng.random() < 0.3:
+            names = {n for n, _ in members}
+            i = rng.randrange(len(members))
+            new = rng.choice([' %s', '%s ', '\t%s', '  %s  ', '%s\n', '\xa0%s'])  % members[i][0]
+            if new not in names:
+                if rng.random() < 0.3 and len(members) < 8:
+                    members.append([new, max(v for _, v in members) + 1])
+                else:
+                    members[i][0] = new
+        return dict(tree, members=members)
+    if t == 'array':
+        return dict(tree, elem=blank_names(rng, tree['elem']))
+    if t == 'tuple':
+        return dict(tree, elems=[blank_names(rng, e) for e in tree['elems']])
+    if t == 'struct':
+        return dict(tree, members=[[k, blank_names(rng, m)] for k, m in tree['members']])
+    return tree
+
+
 def gen_fmts(rng, tree):
     return {pos_key(pos): gen_fmt(rng) for pos, leaf in leaf_paths(tree) if leaf['t'] in ('double', 'scaled')}
 
@@ -582,6 +606,21 @@ def _value_leaves(tree, value, path=()):
         yield path, tree
 
 
+def _enum_names(tree):
+    t = tree['t']
+    if t == 'enum':
+        for n, _ in tree['members']:
+            yield n
+    elif t == 'array':
+        yield from _enum_names(tree['elem'])
+    elif t == 'tuple':
+        for e in tree['elems']:
+            yield from _enum_names(e)
+    elif t == 'struct':
+        for _, m in tree['members']:
+            yield from _enum_names(m)
+
+
 def catalogue_trees():
     """small trees every run contains (the shapes the design phase flagged)"""
     fj = gen.fj
@@ -589,6 +628,7 @@ def catalogue_trees():
     sc = {'t': 'scaled', 'scale': fj(0.1), 'min': fj(0.0), 'max': fj(10.0), 'ar': fj(0.1), 'rr': fj(1.2e-7)}
     scbig = {'t': 'scaled', 'scale': fj(0.1), 'min': fj(0.0), 'max': fj(0.1 * 2 ** 53), 'ar': fj(0.1), 'rr': fj(1.2e-7)}
     en = {'t': 'enum', 'members': [['off', 0], ['on', 1], ['x y', 5]]}
+    enb = {'t': 'enum', 'members': [['off ', 0], [' on', 1], ['on', 2], ['\tx', 5]]}
     bl = {'t': 'blob', 'min': 0, 'max': 300}
     db = {'t': 'double', 'min': fj(-gen.FMAX), 'max': fj(gen.FMAX), 'ar': fj(0.0), 'rr': fj(1.2e-7)}
     st = {'t': 'string', 'min': 0, 'max': gen.UNLIMITED, 'utf8': True}
@@ -596,7 +636,8 @@ def catalogue_trees():
         {'t': 'tuple', 'elems': [i5]},
         {'t': 'tuple', 'elems': [{'t': 'tuple', 'elems': [st]}]},
         {'t': 'array', 'elem': {'t': 'tuple', 'elems': [en]}, 'min': 0, 'max': 3},
-        sc, scbig, en, bl, db, st,
+        sc, scbig, en, enb, bl, db, st,
+        {'t': 'tuple', 'elems': [enb, i5]},
         {'t': 'struct', 'members': [['a', i5], ['b', sc]], 'optional': ['b'], 'client': False},
         {'t': 'struct', 'members': [['a', en], ['b', bl]], 'optional': ['a', 'b'], 'client': False},
         {'t': 'array', 'elem': en, 'min': 0, 'max': 4},
@@ -732,13 +773,15 @@ def run(ctx):
         d = rng.choice([1, 2, 2, 3, 3, 3] + ([4, 5] if big else []))
         trees.append((gen.gen_tree(rng, min(d, maxdepth)), 'gen'))
     for tree0, origin in trees:
+        if origin == 'gen':
+            tree0 = blank_names(rng, tree0)
         try:
             tree = dtcodec.dt_to_tree(dtcodec.tree_to_dt(tree0))
         except Exception as e:
             res.count('tree.refused:' + type(e).__name__)
             continue
-        if tree.get('t') == 'struct' or origin == 'catalogue':
-            pass
+        if any(n != n.strip() for n in _enum_names(tree)):
+            res.count('tree.enum-name-with-outer-blanks')
         res.count('tree.root=' + tree['t'])
         res.count('tree.depth=%d' % dtcodec.tree_depth(tree))
         for k in set(dtcodec.tree_kinds(tree)):
